@@ -81,7 +81,12 @@ theorem quotaDistribute_scale (cfg : Cfg) (hq : ∀ (k V : Rat) (n : Nat), cfg.q
     (k : Rat) (hk : 0 < k) (votes : Votes) (n : Nat) (prev maxS : IMap) :
     quotaDistribute cfg (scaleVotes k votes) n prev maxS = quotaDistribute cfg votes n prev maxS := by
   unfold quotaDistribute
-  simp only [sumVals_scale, hq, wholeLoop_scale k hk, applyPolicy_scale cfg hq k hk]
+  have hle : ∀ q : Rat, (k * q ≤ 0) ↔ (q ≤ 0) := by
+    intro q
+    constructor
+    · intro h; by_contra hn; exact absurd h (not_le.mpr (mul_pos hk (not_le.mp hn)))
+    · intro h; exact mul_nonpos_of_nonneg_of_nonpos (le_of_lt hk) h
+  simp only [sumVals_scale, hq, wholeLoop_scale k hk, applyPolicy_scale cfg hq k hk, hle]
 
 theorem lrRemainders_scale (k : Rat) (hk : 0 < k) (votes : Votes) (q : Rat) (gained : Sel) (maxS : IMap) :
     lrRemainders (scaleVotes k votes) (k * q) gained maxS = lrRemainders votes q gained maxS := by
